@@ -12,7 +12,7 @@ import (
 func init() {
 	register(&core.Rule{ID: "C06.9", Prop: "C06", MinSites: 5,
 		Desc: "no way round the Action: after OnOpen/OnTraffic/OnClose returned, every path to a return or to the next callback first examines the Action (switch over it, comparison with Shutdown, or a helper that maps Shutdown to ErrEngineShutdown); only returns of a freshly established non-nil error are exempt",
-		Run: runC06_9})
+		Run:  runC06_9})
 }
 
 // examinesActionParam: callee has an Action-typed parameter at index i on whose Shutdown case it
@@ -283,10 +283,10 @@ func runC06_9(c *core.Ctx) {
 func init() {
 	register(&core.Rule{ID: "C06.10", Prop: "C06", MinSites: 2,
 		Desc: "closeConns reaches every connection: it iterates the loop's registry with a visitor that closes its argument through el.close on every path and always asks for the next one (returns true)",
-		Run: runC06_10})
+		Run:  runC06_10})
 	register(&core.Rule{ID: "C06.11", Prop: "C06", MinSites: 1,
 		Desc: "closing cannot spin: in eventloop.close the loop that flushes residual output leaves on the error edge of its Writev (a socket that is not writable must not keep the loop, and with it shutdown, busy forever)",
-		Run: runC06_11})
+		Run:  runC06_11})
 }
 
 func runC06_10(c *core.Ctx) {
